@@ -514,34 +514,32 @@ def tdInit (ser : List Nat) (isPoint : Bool) : Option (List Nat × TdSt) :=
       else
         some (dd, { cur := 0, points := pts, nextPoint := np, x := dlInit (some total), y := none })
 
+/-- the part of one trip of `TupleDeltaIter::next` after `position` is known:
+`if position == self.cur { (dx, dy) = values.next()?; break } self.cur += 1;` … `self.cur += 1` -/
+def tdEmit (dd : List Nat) (s : TdSt) (position : Nat) : Out (Nat × Int × Int) × TdSt :=
+  if position = s.cur then
+    match dlNext dd s.x with
+    | (.yield dx, x') =>
+      match s.y with
+      | none => (.yield (position % 65536, dx, 0), { s with x := x', cur := s.cur + 1 })
+      | some y =>
+        match dlNext dd y with
+        | (.yield dy, y') => (.yield (position % 65536, dx, dy), { s with x := x', y := some y', cur := s.cur + 1 })
+        | (_, y') => (.done, { s with x := x', y := some y' })
+    | (_, x') => (.done, { s with x := x' })
+  else (.cont, { s with cur := s.cur + 1 })
+
 /-- one trip round the `loop` of `TupleDeltaIter::next`; items are `(position as u16, dx, dy)`. -/
 def tdStep (ser dd : List Nat) (s : TdSt) : Out (Nat × Int × Int) × TdSt :=
   -- `let position = if let Some(points) = &mut self.points { if cur > next_point { next_point = points.next()? } next_point } else { cur }`
-  let r : Option TdSt :=
-    match s.points with
-    | some p =>
-      if s.cur > s.nextPoint then
-        match ptNext ser p with
-        | (.yield v, p') => some { s with points := some p', nextPoint := v }
-        | (_, _) => none
-      else some s
-    | none => some s
-  match r, s.points with
-  | none, some p => (.done, { s with points := some (ptNext ser p).2 })
-  | none, none => (.done, s)
-  | some s, _ =>
-    let position := match s.points with | some _ => s.nextPoint | none => s.cur
-    if position = s.cur then
-      match dlNext dd s.x with
-      | (.yield dx, x') =>
-        match s.y with
-        | none => (.yield (position % 65536, dx, 0), { s with x := x', cur := s.cur + 1 })
-        | some y =>
-          match dlNext dd y with
-          | (.yield dy, y') => (.yield (position % 65536, dx, dy), { s with x := x', y := some y', cur := s.cur + 1 })
-          | (_, y') => (.done, { s with x := x', y := some y' })
-      | (_, x') => (.done, { s with x := x' })
-    else (.cont, { s with cur := s.cur + 1 })
+  match s.points with
+  | some p =>
+    if s.cur > s.nextPoint then
+      match ptNext ser p with
+      | (.yield v, p') => tdEmit dd { s with points := some p', nextPoint := v } v
+      | (_, p') => (.done, { s with points := some p' })
+    else tdEmit dd s s.nextPoint
+  | none => tdEmit dd s s.cur
 
 def tdFuel (dd : List Nat) : Nat := 2 * (64 * dd.length + 65) + 65537 + 65537
 
